@@ -44,6 +44,19 @@ for q, f in sorted(p.funcs.items()):
         continue
     names = sorted({n.id for n in ast.walk(f.node) if isinstance(n, ast.Name) and isinstance(n.ctx, ast.Store)})
     locs[q] = names
-json.dump({'functions': funcs, 'constants': consts, 'inlinable': inl, 'locals': locs, 'repo_head': os.popen('git -C /repo rev-parse --short HEAD').read().strip()},
+# private fields (`self.__x`) of every class of the reference tree: a tree in which exactly one of them is missing and exactly
+# one new private field appears in the same class has renamed it - the normaliser renames it back (sa/normalize.py)
+from sa.model import unmangle
+fields = {}
+for name, m in p.modules.items():
+    for st in m.tree.body:
+        if isinstance(st, ast.ClassDef):
+            pre = '_' + st.name.lstrip('_') + '__'
+            fs = sorted({unmangle(n.attr) for n in ast.walk(st) if isinstance(n, ast.Attribute) and n.attr.startswith(pre)
+                         and not n.attr.endswith('__') and not isinstance(getattr(n, 'value', None), ast.Call)
+                         and not any(isinstance(d, ast.FunctionDef) and d.name in (n.attr, unmangle(n.attr)) for d in st.body)})
+            if fs:
+                fields[st.name] = fs
+json.dump({'functions': funcs, 'fields': fields, 'constants': consts, 'inlinable': inl, 'locals': locs, 'repo_head': os.popen('git -C /repo rev-parse --short HEAD').read().strip()},
           open(os.path.join(HERE, 'sa', 'baseline.json'), 'w'), indent=1)
 print(len(inl), 'inlinable;', len(funcs), 'functions;', sum(len(v) for v in consts.values()), 'constants')
